@@ -1,7 +1,7 @@
 (* C31 model driver. stdin: "<id>\t<K> <program>" ; stdout: "<id>\t<verdict>;<output>;<expanded>;<verdict2>;<output2>"
    verdict   A (run Static from the empty top-level frame succeeds) | R
    output    values printed by run Dynamic, space separated ("-" when rejected, "!" if Dynamic fails although Static accepted)
-   expanded  the program with every macro boundary expanded by hand (expand_all K 0 false), same syntax
+   expanded  the program with every macro boundary expanded by hand (expand_all K false), same syntax
    verdict2/output2  the same two observables of the expanded program
    S-expression syntax
      expr  (n <int>) | (v <name>) | (+ e e) | (u e)
@@ -103,7 +103,7 @@ let handle (input : string) : string =
   let s = stmt_of (parse (String.sub input (i + 1) (String.length input - i - 1))) in
   if not (stmt_below k s) then failwith "names-not-below-K";
   let v, o = observe s in
-  let s', _ = expand_all k N0 false s in
+  let s', _ = expand_all k false s in
   let v', o' = observe s' in
   String.concat ";" [ v; o; show_stmt s'; v'; o' ]
 
